@@ -102,6 +102,7 @@ def run_legacy(spec):
     obs.osutil = osu._h
     transfer = s3transfer.S3Transfer(obs.client, cfg, osu)
     obs.progress = {}
+    calls = []
     for x in xfers:
         t = x.spec
         x.data = payload(spec.get('seed', 0) * 1000 + x.idx, t.get('size', 0))
@@ -137,6 +138,9 @@ def run_legacy(spec):
             w.director.hooks.append(obs.dirwatch.hook)
         else:
             obs.dirwatch = None
+        if spec.get('concurrent'):
+            calls.append((x, fn))
+            continue
         ob = _await_call(obs, fn, f'legacy-{x.kind}')
         if ob is None:
             break
@@ -145,6 +149,22 @@ def run_legacy(spec):
         else:
             x.outcome = 'success'
         w.log.add('result.ret', label=x.label, outcome=x.outcome)
+    if calls:
+        # one S3Transfer object used from several threads at once: every call runs on its own thread
+        obls = [(x, watchdog.Obligation(fn, name=f'legacy-{x.kind}-{x.label}').start()) for x, fn in calls]
+        r = watchdog.await_or_deadlock(lambda: all(o.done.is_set() for _, o in obls), w.director, w.log,
+                                       wall_timeout=obs.spec.get('wall_timeout', 30.0))
+        if r != 'done':
+            obs.hang = r
+            obs.hang_what = 'legacy-concurrent'
+            obs.stacks = watchdog.all_stacks()
+        else:
+            for x, ob in obls:
+                if ob.exc is not None:
+                    x.outcome, x.exc = 'raised', ob.exc
+                else:
+                    x.outcome = 'success'
+                w.log.add('result.ret', label=x.label, outcome=x.outcome)
     return _finish(obs)
 
 
